@@ -556,6 +556,7 @@ pub struct Batch {
     pub corpus_used: u64,
     pub corpus_skipped: u64,
     pub audits: u64,
+    pub hashes: Vec<u64>,
 }
 
 struct OneResult {
@@ -748,6 +749,7 @@ pub fn batch(root: u64, scenarios: u64, enumerate_every: u64, workers: usize, co
     let mut coll = BTreeSet::new();
     let mut classes: BTreeSet<String> = BTreeSet::new();
     for r in &results {
+        b.hashes.push(r.log_hash);
         b.runs += r.runs + r.single_point_runs;
         b.steps += r.steps;
         b.audits += r.audits;
